@@ -173,6 +173,22 @@ def _signal_before_unlock(f, store, cvc, mclass, obj):
                             return "unlock"
         return None
     B = f.blocks[bid]
+    # the rest of the store's own root element first: when the store sits in a helper that is analysed as part of this
+    # function, the signal and the unlock may follow within the same element
+    after = False
+    for n in walk(B.roots[pos]):
+        if n["id"] == store["id"]:
+            after = True
+            continue
+        if after and n["k"] == "CallExpr":
+            if n.get("callee") in ("pthread_cond_signal", "pthread_cond_broadcast"):
+                a = call_args(n)[0]
+                if FX.lock_class(a) == cvc and FX.lock_obj(a) == obj:
+                    return True
+            if n.get("callee") == FX.UNLOCK:
+                a = call_args(n)[0]
+                if FX.lock_class(a) == mclass and FX.lock_obj(a) == obj:
+                    return False
     r = scan(B.roots[pos + 1:])
     if r is not None:
         return r == "sig"
@@ -669,7 +685,7 @@ def r4_r8(ctx, res):
             for p in ev.paths:
                 evs = [e for e in p.events if e.kind != "branch"]
                 for i, e in enumerate(evs):
-                    if e.kind == "store" and e.node["id"] == n["id"]:
+                    if e.kind == "store" and same_node(e.node, n):
                         nxt = evs[i + 1] if i + 1 < len(evs) else None
                         good = nxt is not None and nxt.kind == "store" and nxt.a.endswith("->ptail") and \
                             APE.vstr(nxt.b) in ("&%s->next" % node_v,)
@@ -685,7 +701,7 @@ def r4_r8(ctx, res):
             for p in ev.paths:
                 evs = [e for e in p.events if e.kind != "branch"]
                 for i, e in enumerate(evs):
-                    if e.kind == "store" and e.node["id"] == n["id"]:
+                    if e.kind == "store" and same_node(e.node, n):
                         # head may now be NULL: on that edge ptail := &head before the unlock
                         hv = APE.vstr(e.b)
                         c = p.cons.get((hv, "#0"))
